@@ -319,7 +319,8 @@ fn static_data_unsliced(data: &DataSpec, settings: &SoundSettingsSpec, r: &dyn R
 		settings: StaticSoundSettings {
 			start_time: settings.start.k(r),
 			start_position: settings.start_position.k(),
-			loop_region: settings.loop_region.map(|l| l.k()),
+			// (set below, through the builder method, as a caller would)
+			loop_region: None,
 			reverse: settings.reverse,
 			volume: settings.volume.k(r),
 			playback_rate: settings.rate.k(r),
@@ -328,6 +329,7 @@ fn static_data_unsliced(data: &DataSpec, settings: &SoundSettingsSpec, r: &dyn R
 		},
 		slice: None,
 	}
+	.loop_region(settings.loop_region.map(|l| l.k()))
 }
 
 pub fn streaming_data(
